@@ -368,7 +368,7 @@ Proof.
     destruct (r_control r) eqn:Ecr; try congruence;
     destruct (s_state s) eqn:Es; simpl;
       try discriminate Hpre;
-      try (destruct Hpre as [_ [Hp|Hp]]; [discriminate Hp | inv Hp; unfold seq_ge; rewrite seq_sdiff_self; reflexivity]);
+      try (destruct Hpre as [Hx Hp]; destruct Hp as [Hp|Hp]; [discriminate Hp | inv Hp; unfold seq_ge; rewrite seq_sdiff_self; reflexivity]);
       try (inv Hpre; unfold seq_ge; rewrite seq_sdiff_self; reflexivity);
       try (destruct Hpre as (a0 & Ha0 & Hlt & _); inv Ha0;
            unfold tcp_sent_syn in Hlt; rewrite Es in Hlt; simpl in Hlt;
